@@ -162,7 +162,6 @@ class ScriptedTor(object):
         self.backlog = []           # commands received while a reply is held (answered in order later)
         self.creating_commands = 0
         self.hold_creating = True
-        self.listener_present_at_creating_command = None
 
     # -- plumbing
     def send(self, data):
@@ -256,7 +255,6 @@ class ScriptedTor(object):
 
     def _creating(self, encoded):
         self.creating_commands += 1
-        self.listener_present_at_creating_command = 'HS_DESC' in self.subscribed
         if self.hold_creating and self.creating_commands == 1:
             self.held = encoded
         else:
@@ -381,16 +379,6 @@ def oracle(items, await_all):
     return decisive
 
 
-def reply_position(items):
-    r = [i for i, it in enumerate(items) if it[0] == 'reply'][0]
-    ev = [i for i, it in enumerate(items) if it[0] == 'evt']
-    if not ev or r < ev[0]:
-        return 'reply_first'
-    if r > ev[-1]:
-        return 'reply_last'
-    return 'reply_between'
-
-
 def _describe(it):
     return 'reply' if it[0] == 'reply' else '%s %s %s' % (it[1], it[2], it[3])
 
@@ -401,10 +389,9 @@ def run_history(history, workdir=None):
     kind, await_all, items = h['kind'], h['await_all'], h['items']
     mode_all = bool(await_all) and kind != 'legacy'
     viol = []
-    sigbase = kind
 
     def bad(clause, detail, what):
-        viol.append({'key': 'C15:%s:%s/%s' % (clause, sigbase, detail), 'clause': clause, 'what': what, 'history': h})
+        viol.append({'key': 'C15:%s:%s/%s' % (clause, kind, detail), 'clause': clause, 'what': what, 'history': h})
 
     own_tmp = None
     if kind == 'filesystem' and workdir is None:
@@ -504,18 +491,13 @@ def _drive(h, kind, await_all, items, mode_all, workdir, tap, bad):
     if any(it[0] == 'evt' and it[1] == 'foreign' and it[2] == 'UPLOADED' and it[3] in own_dirs for it in items):
         early += '+foreign_UPLOADED_on_shared_dir'
 
-    def trig():
-        if decisive is None:
-            return 'no_decisive_event/' + early
-        return 'decided_by_%s/%s' % (items[decisive[1]][2], early)
-
     live_ok = 'await_all_completes_once_every_attempt_settled_with_a_success' if mode_all else 'completes_once_own_upload_confirmed'
     safe_ok = 'await_all_completes_only_when_every_attempt_settled_with_a_success' if mode_all else 'completes_only_after_own_confirmed_upload'
     if observed is None:
         if decisive is not None and decisive[0] == 'ok':
-            bad(live_ok, trig(), 'observed creation still pending at the end of the history; expected ' + exp_txt)
+            bad(live_ok, early, 'observed creation still pending at the end of the history; expected ' + exp_txt)
         elif decisive is not None:
-            bad('fails_when_every_attempted_upload_failed', trig(), 'observed creation still pending at the end of the history; expected ' + exp_txt)
+            bad('fails_when_every_attempted_upload_failed', early, 'observed creation still pending at the end of the history; expected ' + exp_txt)
     else:
         okind, s = observed
         val = rec.results[0][1]
@@ -530,15 +512,15 @@ def _drive(h, kind, await_all, items, mode_all, workdir, tap, bad):
         elif decisive is not None and decisive[1] <= s:
             if decisive[0] != okind:
                 if decisive[0] == 'err':
-                    bad('fails_when_every_attempted_upload_failed', trig(), 'observed ' + obs_txt + '; expected ' + exp_txt)
+                    bad('fails_when_every_attempted_upload_failed', early, 'observed ' + obs_txt + '; expected ' + exp_txt)
                 else:
-                    bad('fails_only_when_every_attempted_upload_failed', trig(), 'observed ' + obs_txt + '; expected ' + exp_txt)
+                    bad('fails_only_when_every_attempted_upload_failed', early, 'observed ' + obs_txt + '; expected ' + exp_txt)
         else:
             if okind == 'ok':
-                bad(safe_ok, 'at_' + (at[2] if at and at[0] == 'evt' else 'reply') + '/' + early,
+                bad(safe_ok, early,
                     'observed ' + obs_txt + ' before any deciding event; expected ' + exp_txt)
             else:
-                bad('fails_only_when_every_attempted_upload_failed', 'at_' + (at[2] if at and at[0] == 'evt' else 'reply') + '/' + early,
+                bad('fails_only_when_every_attempted_upload_failed', early,
                     'observed ' + obs_txt + ' before any deciding event; expected ' + exp_txt)
     if len(rec.results) > 1 or double:
         i, e = double[0] if double else (len(items), None)
